@@ -318,12 +318,12 @@ def gen_population(rng, cfg, workdir, scale=1.0, big_dir=None):
 
 
 def debugfs_script(img, cmds, workdir, write=True, tag="dbg", clock=1500000100, rand_seed=2, faults=(),
-                   extra_args=(), keep_log=False, plan_kw=None):
+                   extra_args=(), keep_log=False, plan_kw=None, devices=None):
     script = os.path.join(workdir, tag + ".script")
     with open(script, "w") as f:
         f.write("\n".join(cmds) + "\n")
     argv = [tool("debugfs")] + (["-w"] if write else []) + list(extra_args) + ["-f", script, img]
-    pl = Plan([img], None, clock=clock, rand_seed=rand_seed, faults=faults, **(plan_kw or {}))
+    pl = Plan(devices or [img], None, clock=clock, rand_seed=rand_seed, faults=faults, **(plan_kw or {}))
     return run_sim(argv, pl, workdir, tag=tag, keep_log=keep_log)
 
 
